@@ -272,3 +272,14 @@ def c21(ctx):
     else:
         ctx.model_check("MC_Kron", cfg="MC_KronQ.cfg", workers=4)
     simple(ctx, "MC_C21", "Trace_C21", floor=0.5)
+
+
+@plan("C23")
+def c23(ctx):
+    ctx.rule = ("TLC enumerates pairs of polynomials over GF(p), p in {2,3,5,7} (all pairs up to a degree bound per "
+                "prime or a seeded subset, plus lists with unreduced entries); add, sub, mul, neg, scalar add, division "
+                "with remainder, pow, sqr, pow_mod, compose_mod, gcd, lcm, diff, monic, evaluation at every field "
+                "element are validated against arithmetic modulo p by definition (module GF); is_sqf, sqf_list, "
+                "gf_factor, gf_zassenhaus and gf_shoup (three runs each) against their contracts: product, monic "
+                "irreducible (no monic divisor of degree <= deg/2, by exhaustive search) distinct factors")
+    simple(ctx, "MC_C23", "Trace_C23", floor=0.9)
